@@ -10,6 +10,7 @@ Decided here (each a necessary condition; the full policy model over histories i
   5 division  no division by the sum of caller-supplied durations without a zero guard
   6 pickling  _CacheBase.__getstate__ raises unless `shared`
   7 bound     DiskCache.put always reaches _evict_if_needed
+  10 proxy-iteration a manager.dict() proxy is never iterated directly (works only in the process that owns the manager)
 """
 
 from __future__ import annotations
@@ -855,14 +856,68 @@ def rule_disk_levels(ctx: Ctx) -> None:
             f"`in` and get() consult the same levels {sorted(g)}", f"get() answers from {sorted(g)} but `in` only looks at {sorted(c)}: a key can be reported absent while get() returns its value (or the reverse)", key="contains-vs-get")
 
 
+ITERATING = {"list", "tuple", "set", "frozenset", "sorted", "min", "max", "sum", "iter", "enumerate", "zip", "map", "filter", "any", "all", "reversed"}
+
+
+def rule_proxy_iteration(ctx: Ctx) -> None:
+    """A `manager.dict()` proxy is never iterated directly.
+
+    DictProxy forwards `__iter__` as a method that returns an *Iterator proxy*, which has to be created through the
+    proxy's `_manager`.  A proxy that reached another process by pickling has `_manager = None`, so `for k in proxy`
+    raises AttributeError there, while keys()/items()/values()/len()/in/[] (plain copies / values) work everywhere.
+    With shared=True the caches exist to be used from several processes, so every operation must stay on that subset.
+    (ListProxy has no `__iter__` entry: iteration falls back to `__getitem__` and is fine.)"""
+    n = 0
+    for cname in SHARED:
+        cls = ctx.prog.cls(f"{MOD}.{cname}")
+        init = cls.methods["__init__"]
+        managers = {t.id for a in ast.walk(init.node) if isinstance(a, ast.Assign) and isinstance(a.value, ast.Call) and dotted(a.value.func).rsplit(".", 1)[-1] == "Manager" for t in a.targets if isinstance(t, ast.Name)}
+        proxies = {_self_attr(t) for a in ast.walk(init.node) if isinstance(a, ast.Assign) and isinstance(a.value, ast.Call) and isinstance(a.value.func, ast.Attribute) and a.value.func.attr == "dict"
+                   and isinstance(a.value.func.value, ast.Name) and a.value.func.value.id in managers for t in a.targets if _self_attr(t)}
+        if not proxies:
+            ctx.add("10-proxy-iteration", init, init.node, None, f"UNDECIDED: no `manager.dict()` field found in {cname}.__init__", key=f"proxies {cname}")
+            continue
+        for mname, fn in cls.methods.items():
+            aliases = {t.id: _self_attr(a.value) for a in walk_no_nested(fn.node) if isinstance(a, ast.Assign) and _self_attr(a.value) in proxies for t in a.targets if isinstance(t, ast.Name)}
+
+            def proxy_of(e: ast.AST, aliases=aliases) -> str | None:
+                if _self_attr(e) in proxies:
+                    return _self_attr(e)
+                return aliases.get(e.id) if isinstance(e, ast.Name) else None
+
+            par = _parents(fn.node)
+            for x in ast.walk(fn.node):
+                its: list[ast.AST] = []
+                if isinstance(x, (ast.For, ast.AsyncFor, ast.comprehension)):
+                    its = [x.iter]
+                elif isinstance(x, ast.Call) and dotted(x.func) in ITERATING:
+                    its = list(x.args)
+                elif isinstance(x, ast.Starred):
+                    its = [x.value]
+                for it in its:
+                    f_ = proxy_of(it)
+                    if f_ is None:
+                        continue
+                    n += 1
+                    local_only = _under_not_shared(x if not isinstance(x, ast.comprehension) else par.get(id(x), x), par)
+                    ctx.add("10-proxy-iteration", fn, it, local_only, f"self.{f_} is iterated only under `not self.shared`" if local_only else
+                            f"`{norm(it)}` (a multiprocessing manager dict proxy when shared=True) is iterated directly: in a process that received the cache by pickling this raises AttributeError ('NoneType' object has no attribute '_registry'); iterate over .keys() / .items() or a local copy instead",
+                            key=f"iterates {cname}.{mname} {f_}")
+        ctx.add("10-proxy-iteration", cls.qualname, cls.loc, True, f"{cname}: manager dict proxies {sorted(proxies)}: scanned {len(cls.methods)} methods for direct iteration", key=f"scan {cname}")
+    ctx.note(f"10-proxy-iteration: {n} direct iteration(s) over a manager dict proxy found")
+
+
 def check(ctx: Ctx) -> None:
-    for rule in (rule_disk_levels, rule_stores, rule_lock, rule_invariant, rule_policy, rule_retire, rule_division, rule_pickle_guard, rule_disk_bound):
+    for rule in (rule_disk_levels, rule_stores, rule_lock, rule_invariant, rule_policy, rule_retire, rule_division, rule_pickle_guard, rule_disk_bound, rule_proxy_iteration):
         ctx.run(rule)
 
 
 # ------------------------------------------------------------------------------ self-test corpus
 F = "pipefunc/cache.py"
 MUTANTS = [
+    Mutant("expire-iterates-proxy-F35", F, "            for k in normalized_access_counts\n", "            for k in self._access_counts\n", ("C14.10-proxy-iteration",), why="original F35"),
+    Mutant("str-iterates-proxy", F, '        access_counts_str = f"Access Counts: {self._access_counts}\\n"\n', '        access_counts_str = f"Access Counts: {sorted(self._access_counts)}\\n"\n', ("C14.10-proxy-iteration",)),
+    Mutant("twin-expire-iterates-keys", F, "            for k in normalized_access_counts\n", "            for k in self._access_counts.keys()\n", twin=True),
     Mutant("disk-contains-file-only", F, "        if self.with_lru_cache and key in self.lru_cache:\n            return True\n        file_path = self._get_file_path(key)\n        return file_path.exists()\n", "        return self._get_file_path(key).exists()\n", ("C14.9-levels",), why="round-2 seed C14/6"),
     Mutant("lru-get-test-outside-lock", F,
            "        with self._cache_lock:\n            if key not in self._cache_dict:\n                return None\n            value = self._cache_dict[key]\n            # Move key",
